@@ -298,7 +298,10 @@ class ImportanceK(Generic[R], SMCAlgorithm[R]):
             log_weights, choices = vmap(self.q.random_weighted, in_axes=(0, None))(
                 sub_keys, self.target
             )
-            trs, target_scores = vmap(self.target.importance)(sub_keys, choices)
+            # fresh keys: the proposal above already consumed `sub_keys`
+            trs, target_scores = vmap(self.target.importance)(
+                jrandom.split(key, self.get_num_particles()), choices
+            )
         else:
             log_weights = 0.0
             trs, target_scores = vmap(self.target.importance, in_axes=(0, None))(
